@@ -936,6 +936,13 @@ func (h *handler1) handleMqttSn(ctx context.Context, pkt snPkts.Packet) error {
 			}
 			return Shutdown
 		} else {
+			// A client in the middle of a connect exchange is not connected
+			// (yet, or any more): it cannot go to sleep. The end of the
+			// exchange would make it active again behind the sleep pinger's
+			// back.
+			if _, connecting := h.transactions.GetByType(snPkts.CONNECT); connecting {
+				return fmt.Errorf("illegal packet during a connect exchange: %v", snPkt)
+			}
 			h.log.Debug("Going to sleep for %vs", snPkt.Duration)
 			// We must ensure MQTT gateway considers client alive during sleep period.
 			h.sleepDuration = time.Duration(snPkt.Duration) * time.Second
